@@ -38,6 +38,10 @@ type TimerEntry struct {
 	Ctl chan bool `json:"-"`
 
 	timers *Timers
+
+	// started says that this entry's goroutine (run) has been
+	// started.
+	started bool
 }
 
 // Timers represents pending timers.
@@ -63,17 +67,33 @@ func NewTimers(emitter func(context.Context, *TimerEntry)) *Timers {
 //
 // This method is used to initialize the Timers from a timers
 // machine's state, which is generated via Timers.State().
+//
+// The goroutines of pending timers use the map and its entries, so
+// all of this happens under the lock (the given data can be the map
+// itself), and an entry that is pending is not modified: a timer
+// given under its id replaces it, as in add.
 func (ts *Timers) withMap(x interface{}) error {
+	ts.Lock()
+	defer ts.Unlock()
+
 	js, err := json.Marshal(&x)
 	if err != nil {
 		return err
 	}
-	if err = json.Unmarshal(js, &ts.Map); err != nil {
+	given := make(map[string]*TimerEntry)
+	if err = json.Unmarshal(js, &given); err != nil {
 		return err
 	}
-	for _, te := range ts.Map {
+	for id, te := range given {
+		if te == nil {
+			continue
+		}
+		if old, have := ts.Map[id]; have {
+			close(old.Ctl)
+		}
 		te.timers = ts
 		te.Ctl = make(chan bool)
+		ts.Map[id] = te
 	}
 
 	return nil
@@ -92,9 +112,14 @@ func (ts *Timers) State() *core.State {
 // data.
 func (ts *Timers) Start(ctx context.Context) error {
 	ts.c.Logf("Timers.Start")
+	ts.Lock()
 	for _, t := range ts.Map {
-		go t.run(ctx)
+		if !t.started {
+			t.started = true
+			go t.run(ctx)
+		}
 	}
+	ts.Unlock()
 	return nil
 }
 
@@ -111,6 +136,7 @@ func (ts *Timers) add(ctx context.Context, e *TimerEntry) error {
 	ts.changed()
 	vhook("timer-added", e.Id, e)
 
+	e.started = true
 	go e.run(ctx)
 
 	return nil
